@@ -44,6 +44,19 @@ CHECKS.update({
          "DESIGN.md §3 C07"),
 })
 
+CHECKS.update({
+ "C05": ("exploration",
+         "bounded-exhaustive enumeration of (protocol, shape, error position, status code, message, details) on the real Mux with independent wire decoders as oracle",
+         "Every status code 1..16 plus out-of-range values, every message of length <= 3 over {a,%,space,newline,é} plus boundary messages, with 0-2 details, returned before or after 1-2 replies, on HTTP (json/proto/implicit), Twirp, gRPC(+json), gRPC-web(+json), gRPC-web-text and WebSocket: the client-side decoders of ref/wire must recover the same code, message and details (HTTP status per code.proto, Twirp names per the Twirp spec, percent-decoding per the gRPC spec, RFC 6455 frame validity).",
+         "The in-process recorder models net/http trailer delivery; WebSocket close-code mapping is only required to be a sendable non-1000 code; leading/trailing spaces in gRPC-web trailer frames are not compared.",
+         "DESIGN.md §3 C05"),
+ "C06": ("model_checking",
+         "exhaustive enumeration of read schedules (all partitions of short streams, bounded cut sets and uniform chunkings beyond, both EOF conventions, truncation at every offset with EOF or connection error) of the request byte stream on the real Mux for every streaming transport, against the sent sequences",
+         "For every transport x shape x client sequence x handler sequence, every read schedule of the scripted body/conn is executed on the real Mux: the handler must log exactly the complete client messages then io.EOF (or an error for a body cut inside a message), and the response must de-frame (independent decoders) into exactly the handler's replies and final status. HttpBody uploads of every length 0..3*limit+1 must re-assemble byte-exactly with every chunk <= limit.",
+         "Scripted reader/conn model io.Reader / net.Conn; HTTP/2 flow control is not modelled; client-streaming-with-unary-reply over WebSocket is excluded (not expressible).",
+         "DESIGN.md §3 C06"),
+})
+
 NOT_YET = {}
 
 def main():
